@@ -8,6 +8,13 @@ Sources (each a syntactic pattern whose failure mode was reproduced on the real 
   arity           star-call passing such a list to a callee                                                 -> TypeError
   zerodiv         division by a parameter in Viewbox.viewbox_transform (the one data-driven divisor named
                   by the properties)                                                                        -> ZeroDivisionError
+  overflow        int()/round() of a float that may be infinite: float(<document text>) accepts '1e999' and 'inf', and
+                  int(inf)/round(inf) raise OverflowError, which `except ValueError` does not take.  A value is possibly
+                  infinite when it is float(<non-constant>), a parameter, or arithmetic over such; a comparison-clamped
+                  local (`if x > 1: x = 1.0`) and min()/max() against a constant are finite                 -> OverflowError
+  nonefield       arithmetic on <local>.<field> where the local was built in the same function by a class whose
+                  __init__ sets the field to None and fills it only conditionally (Viewbox after an incomplete
+                  viewBox), without a None test on that field dominating the use                            -> TypeError
 Exceptions are propagated along resolved calls (constructors -> __init__ chain, Class.m, self.m by MRO in the context
 class, unique method names, unique non-trivial property getters) and subtracted at try/except handlers.
 Unresolved calls contribute nothing and are counted.
@@ -48,6 +55,11 @@ class Flow:
                 for gn, g in ci.getters.items():
                     getters.setdefault(gn, []).append(cn)
             self._unique_getters = {gn: cs[0] for gn, cs in getters.items() if len(cs) == 1}
+            setters = {}
+            for cn, ci in self.m.classes.items():
+                for gn, g in ci.setters.items():
+                    setters.setdefault(gn, []).append(cn)
+            self._unique_setters = {gn: cs[0] for gn, cs in setters.items() if len(cs) == 1}
         return self._unique_methods
 
     def resolve(self, call, ctxclass):
@@ -92,6 +104,27 @@ class Flow:
                 except AnalysisError:
                     return None
         return None
+
+    def maybe_none_fields(self, cname):
+        """fields `self.f = None` at the top level of __init__ that no later top-level statement of __init__ sets unconditionally"""
+        if not hasattr(self, "_mnf"):
+            self._mnf = {}
+        if cname not in self._mnf:
+            out = set()
+            ci = self.m.classes.get(cname)
+            init = ci.methods.get("__init__") if ci else None
+            if init is not None:
+                for st in init.body:
+                    if isinstance(st, ast.Assign):
+                        for t in st.targets:
+                            ch = attr_chain(t)
+                            if ch and len(ch) == 2 and ch[0] == "self":
+                                if isinstance(st.value, ast.Constant) and st.value.value is None:
+                                    out.add(ch[1])
+                                else:
+                                    out.discard(ch[1])
+            self._mnf[cname] = out
+        return self._mnf[cname]
 
     # ------------------------------------------------------------------ regex group languages
     def group_lang(self, regex_name, group):
@@ -320,7 +353,24 @@ class _Fn:
         for child in ast.iter_child_nodes(s):
             if isinstance(child, ast.expr):
                 merge(out, self.expr(child))
+        if isinstance(s, (ast.Assign, ast.AugAssign)):
+            # a store to a property runs its setter
+            for t in (s.targets if isinstance(s, ast.Assign) else [s.target]):
+                for tt in (t.elts if isinstance(t, ast.Tuple) else [t]):
+                    if isinstance(tt, ast.Attribute):
+                        merge(out, self.setter(tt))
         return out
+
+    def setter(self, n):
+        self.flow.unique_methods()
+        g = self.flow._unique_setters.get(n.attr)
+        if g is None:
+            return {}
+        fn = self.flow.m.classes[g].setters[n.attr]
+        if not any(isinstance(x, (ast.Call, ast.Raise)) for x in ast.walk(fn)):
+            return {}
+        r = self.flow.may_raise("%s.%s:setter" % (g, n.attr), fn, g)
+        return {e: "%s <- %s" % (self.qual, w) for e, w in r.items()}
 
     def type_guarded(self, raise_stmt):
         """`if not isinstance(param, T): raise TypeError` - an API-misuse guard, not driven by document text."""
@@ -367,10 +417,46 @@ class _Fn:
                 merge(out, self.subscript(n))
             elif isinstance(n, ast.Attribute) and isinstance(n.ctx, ast.Load):
                 merge(out, self.getter(n))
+            elif isinstance(n, ast.Call) and isinstance(n.func, ast.Name) and n.func.id in ("min", "max", "abs", "sqrt", "float", "int", "round") and n.args \
+                    and self.none_field_operand(ast.BinOp(left=n.args[0], op=ast.Add(), right=n.args[-1])) is not None:
+                merge(out, self.src("TypeError", "%s() over %s, which is None when the object was filled incompletely" % (n.func.id, self.none_field_operand(ast.BinOp(left=n.args[0], op=ast.Add(), right=n.args[-1]))), n))
+                merge(out, self.call(n))
+            elif isinstance(n, ast.BinOp) and self.none_field_operand(n) is not None:
+                merge(out, self.src("TypeError", "arithmetic on %s, which is None when the object was filled incompletely" % self.none_field_operand(n), n))
             elif isinstance(n, ast.BinOp) and isinstance(n.op, ast.Div) and self.qual == "Viewbox.viewbox_transform":
                 if isinstance(n.right, ast.Name) and n.right.id in [a.arg for a in self.fn.args.args]:
                     merge(out, self.src("ZeroDivisionError", "division by parameter %s" % n.right.id, n))
         return out
+
+    def expr_children(self, a):
+        """sources inside the argument of int(): int(round(float(x)))"""
+        out = {}
+        for c in ast.walk(a):
+            if isinstance(c, ast.Call) and isinstance(c.func, ast.Name) and c.func.id in ("round",) and len(c.args) == 1 and self.maybe_infinite(c.args[0]):
+                merge(out, self.src("OverflowError", "round(%s) of a float that may be infinite" % ast.unparse(c.args[0])[:40], c))
+        return out
+
+    def none_field_operand(self, n):
+        from .flow import dominated
+
+        for side in (n.left, n.right):
+            if isinstance(side, ast.Attribute) and isinstance(side.value, ast.Name):
+                v, f = side.value.id, side.attr
+                binds = [b for b in ast.walk(self.fn) if isinstance(b, ast.Assign) and len(b.targets) == 1 and isinstance(b.targets[0], ast.Name) and b.targets[0].id == v]
+                if not binds or not all(isinstance(b.value, ast.Call) and isinstance(b.value.func, ast.Name) and b.value.func.id in self.flow.m.classes for b in binds):
+                    continue
+                if not any(f in self.flow.maybe_none_fields(b.value.func.id) for b in binds):
+                    continue
+
+                def atom_test(test, positive, v=v, f=f):
+                    if isinstance(test, ast.Compare) and len(test.ops) == 1 and isinstance(test.comparators[0], ast.Constant) and test.comparators[0].value is None \
+                            and attr_chain(test.left) == [v, f]:
+                        return isinstance(test.ops[0], ast.IsNot) == positive and isinstance(test.ops[0], (ast.Is, ast.IsNot))
+                    return False
+
+                if not dominated(side, self.fn, atom_test):
+                    return "%s.%s" % (v, f)
+        return None
 
     def getter(self, n):
         self.flow.unique_methods()
@@ -436,12 +522,66 @@ class _Fn:
             return True
         return False
 
+    def maybe_infinite(self, a, depth=0):
+        """May the float expression `a` be +-inf?  (float('1e999') is inf; parameters are what the caller computed)"""
+        if depth > 6:
+            return True
+        if isinstance(a, ast.Constant):
+            return False
+        if isinstance(a, ast.Call) and isinstance(a.func, ast.Name):
+            if a.func.id == "float" and len(a.args) == 1:
+                return not isinstance(a.args[0], ast.Constant)
+            if a.func.id in ("round", "abs", "ceil", "floor", "sqrt") and a.args:
+                return self.maybe_infinite(a.args[0], depth + 1)
+            if a.func.id in ("min", "max") and len(a.args) == 2:
+                # clamped from one side only; two nested clamps (min(max(..))) are finite
+                inner = [x for x in a.args if not isinstance(x, ast.Constant)]
+                if len(inner) == 1 and isinstance(inner[0], ast.Call) and isinstance(inner[0].func, ast.Name) and inner[0].func.id in ("min", "max") and inner[0].func.id != a.func.id \
+                        and any(isinstance(x, ast.Constant) for x in inner[0].args):
+                    return False
+                return any(self.maybe_infinite(x, depth + 1) for x in a.args)
+            if a.func.id in ("len", "int", "ord"):
+                return False
+            return False
+        if isinstance(a, ast.BinOp):
+            return self.maybe_infinite(a.left, depth + 1) or self.maybe_infinite(a.right, depth + 1)
+        if isinstance(a, ast.UnaryOp):
+            return self.maybe_infinite(a.operand, depth + 1)
+        if isinstance(a, ast.Name):
+            params = [x.arg for x in self.fn.args.args]
+            binds = [s_ for s_ in ast.walk(self.fn) if isinstance(s_, ast.Assign) and any(isinstance(t, ast.Name) and t.id == a.id for t in s_.targets)]
+            if not binds:
+                return a.id in params and a.id not in ("self", "cls")
+            # clamped on both sides by comparisons with constants?
+            lo = hi = False
+            for s_ in ast.walk(self.fn):
+                if isinstance(s_, ast.If) and isinstance(s_.test, ast.Compare) and len(s_.test.ops) == 1 and isinstance(s_.test.left, ast.Name) and s_.test.left.id == a.id \
+                        and isinstance(s_.test.comparators[0], ast.Constant) and any(isinstance(b, ast.Assign) and isinstance(b.targets[0], ast.Name) and b.targets[0].id == a.id
+                                                                                     and isinstance(b.value, ast.Constant) for b in s_.body):
+                    if isinstance(s_.test.ops[0], (ast.Gt, ast.GtE)):
+                        hi = True
+                    if isinstance(s_.test.ops[0], (ast.Lt, ast.LtE)):
+                        lo = True
+            if lo and hi:
+                return False
+            return any(self.maybe_infinite(b.value, depth + 1) for b in binds if not isinstance(b.value, ast.Constant)) or (a.id in params)
+        return False
+
     def call(self, n):
         out = {}
         f = n.func
+        if isinstance(f, ast.Name) and f.id in ("int", "round") and len(n.args) == 1:
+            a = n.args[0]
+            numeric = isinstance(a, (ast.BinOp, ast.UnaryOp)) or (isinstance(a, ast.Call) and isinstance(a.func, ast.Name) and a.func.id in ("round", "float", "abs", "ceil", "floor")) \
+                or (isinstance(a, ast.Name) and f.id == "round")
+            if numeric and self.maybe_infinite(a):
+                merge(out, self.src("OverflowError", "%s(%s) of a float that may be infinite" % (f.id, ast.unparse(a)[:40]), n))
         if isinstance(f, ast.Name) and f.id in ("float", "int") and len(n.args) == 1:
             if not self.conv_safe(n.args[0], f.id):
                 merge(out, self.src("ValueError", "%s(%s) of document text" % (f.id, ast.unparse(n.args[0])[:40]), n))
+            if f.id == "int":
+                for a in n.args:
+                    merge(out, self.expr_children(a))
             return out
         if isinstance(f, ast.Name) and f.id == "map" and len(n.args) == 2 and ast.unparse(n.args[0]) in ("float", "int"):
             inner = self.taint_of(n.args[1])
